@@ -106,7 +106,15 @@ fn data_url_owned<const N: usize>() {
     }
 }
 
-// @h prop=C18 tier=quick kind=check timeout=2400 mem=16 bound="any byte string <= 9 bytes" encodes="DataUrl::{new,media_type,is_base_64_encoded,encoded_data,parts};DataUrlDelimiters::parse (Uri::validate -> table twin)"
+// @h prop=C18 tier=quick kind=check timeout=2400 mem=16 bound="any byte string <= 7 bytes (data:,x and data:,, fit)" encodes="DataUrl::{new,media_type,is_base_64_encoded,encoded_data,parts};DataUrlDelimiters::parse (Uri::validate -> table twin)"
+#[cfg_attr(kani, kani::proof)]
+#[cfg_attr(kani, kani::unwind(10))]
+#[cfg_attr(kani, kani::stub(iref_core::uri::Uri::validate, crate::tables::t_uri_uri_validate_iter))]
+pub fn c18_data_url_borrowed_n7() {
+    data_url_borrowed::<7, false, false>()
+}
+
+// @h prop=C18 tier=thorough kind=check timeout=3000 mem=24 bound="any byte string <= 9 bytes" encodes="same as c18_data_url_borrowed_n7"
 #[cfg_attr(kani, kani::proof)]
 #[cfg_attr(kani, kani::unwind(12))]
 #[cfg_attr(kani, kani::stub(iref_core::uri::Uri::validate, crate::tables::t_uri_uri_validate_iter))]
@@ -114,7 +122,7 @@ pub fn c18_data_url_borrowed_n9() {
     data_url_borrowed::<9, false, false>()
 }
 
-// @h prop=C18 tier=quick kind=check timeout=2400 mem=20 bound="any byte string <= 13 bytes that starts with data: (so that data:;base64, fits)" encodes="same as c18_data_url_borrowed_n9"
+// @h prop=C18 tier=thorough kind=check timeout=3600 mem=30 bound="any byte string <= 13 bytes that starts with data: (so that data:;base64, fits)" encodes="same as c18_data_url_borrowed_n9"
 #[cfg_attr(kani, kani::proof)]
 #[cfg_attr(kani, kani::unwind(16))]
 #[cfg_attr(kani, kani::stub(iref_core::uri::Uri::validate, crate::tables::t_uri_uri_validate_iter))]
